@@ -89,6 +89,7 @@ def embed(B, A):
     for k in range(len(cuts_b) - 1):
         sub = _embed_flat(B[cuts_b[k]:cuts_b[k + 1]], A[cuts_a[k]:cuts_a[k + 1]])
         amap.extend(x + cuts_a[k] for x in sub)
+    _fix_closers(B, A, amap)
     gaps = [[] for _ in range(len(B) + 1)]
     prev = -1
     for i, ai in enumerate(amap):
@@ -96,6 +97,29 @@ def embed(B, A):
         prev = ai
     gaps[len(B)] = list(A[prev + 1:])
     return gaps, amap
+
+
+def _fix_closers(B, A, amap):
+    """Bracket structure decides ambiguous alignments: where several identical closers are adjacent in A (a real
+    `}` next to an inserted one) the real closer is the one that closes the image of the real opener. Only moves
+    a closer within its slack (between the images of its neighbours), so the embedding stays a subsequence."""
+    OPEN = {"(": ")", "[": "]", "{": "}"}
+    for i, t in enumerate(B):
+        if t.kind != "punct" or t.text not in OPEN:
+            continue
+        try:
+            ci = match_close(B, i)
+            ca = match_close(A, amap[i])
+        except Exception:
+            continue
+        if ci is None or ca is None or ci >= len(B) or ca >= len(A) or amap[ci] == ca:
+            continue
+        if A[ca].key() != B[ci].key():
+            continue
+        lo = amap[ci - 1] if ci > 0 else -1
+        hi = amap[ci + 1] if ci + 1 < len(B) else len(A)
+        if lo < ca < hi:
+            amap[ci] = ca
 
 
 def _embed_flat(B, A):
@@ -171,9 +195,13 @@ def transplant(B, gaps, C, atriv=None):
                 pending = []
                 _emit(out, gaps[b0 + k], C[c0 + k], atriv[b0 + k] if atriv else None)
         elif tag == "delete":
-            for k in range(b0, b1):
-                pending.extend(gaps[k])
+            # insertions in front of the deleted run stay (they are emitted before the next real token); insertions
+            # INSIDE the run annotated code that no longer exists (e.g. the error arm of a removed `?`) and go with it
+            pending.extend(gaps[b0])
+            dropped = sum(len(gaps[k]) for k in range(b0 + 1, b1))
             changes.append(("delete", b0, b1, c0, c1))
+            if dropped:
+                changes.append(("dropped-annotations", b0 + 1, b1, c0, c1))
         elif tag == "insert":
             out.extend(pending)
             pending = []
